@@ -34,14 +34,14 @@ LEVEL_NOTE = ('Photometry from a finite alphabet; records are compared through t
 RULE = ("(a) cases: (line sequence chunk, configuration); one execution per data file, one evaluation per record. (b) a state is the canonical hash of everything handed to the calls "
         "(objects and file bytes); a transition is one post-processing call; non-trivial = distinct (configuration, sequence) of length >= 2 / data files with at least one ineligible line")
 ASSUMPTIONS = ["finite value alphabets", "output paths are always fresh (the library prompts before overwriting)"]
-REQUIRED_CLASSES = ['ineligible-line-skipped', 'all-eligible', 'selector-cuts', 'without-model-fluxes', 'with-model-fluxes', 'mode-2d', 'mode-3d', 'format-v2', 'history-depth-2',
+REQUIRED_CLASSES = ['remove-resolved-after-a-default-call', 'ineligible-line-skipped', 'all-eligible', 'selector-cuts', 'without-model-fluxes', 'with-model-fluxes', 'mode-2d', 'mode-3d', 'format-v2', 'history-depth-2',
                     'form-path', 'form-object', 'form-list', 'op-plot', 'op-filter_output', 'op-write_parameters', 'op-write_parameter_ranges', 'op-extract_parameters',
                     'nan-inf-record-roundtrip', 'longer-file', 'law-in-other-unit', 'op-plot_params_1d', 'op-plot_params_2d', 'op-plot-convolved', 'no-trailing-newline', 'selector-keeps-nothing', 'data-as-open-file', 'single-model-package', 'duplicate-source-names', 'record-without-fits-handed-on']
 TIMEOUT = {'quick': 900, 'thorough': 3600}
 
 KINDS = {'A': (1, 1, 1), 'B': (1, 4, 3), 'C': (1, 0, 9), 'D': (0, 2, 3)}
 B3 = ['B1', 'B3', 'B5']
-AXES_A = {'n_data_min': [2, 1, 3, 0], 'sel': [('A', 0), ('N', 2), ('F', 3.0), ('N', 0), ('C', 1e-6)], 'conv': [True, False], 'fmt': ['v1', 'v2'], 'mode': ['2d', '3d'], 'law': ['power', 'nonmono@nm'], 'n_models': [5, 1]}
+AXES_A = {'n_data_min': [2, 1, 3, 0], 'sel': [('A', 0), ('N', 2), ('F', 3.0), ('N', 0), ('C', 1e-6)], 'conv': [True, False], 'fmt': ['v1', 'v2'], 'mode': ['2d', '3d'], 'law': ['power', 'nonmono@nm'], 'n_models': [5, 1], 'rr': [False, True]}
 SELS_B = [('N', 1), ('N', 3), ('A', 0), ('F', 2.0)]
 
 
@@ -142,12 +142,18 @@ def _part_a(ctx, case, rec, d):
     else:
         ap, t = fc.grid3d(seed * 10 + 14, n_models=5, n_ap=3, bands=B3)
         t = t[:nm_]
+        if nm_ == 5:
+            t[4] = t[4][:, :1] * np.array([1.0, 1e2, 1e4])[None, :]          # one model resolved at most trial distances (matters with remove_resolved)
         md = fc.build_package(d, 'pkg', {'fmt': fmt, 'names': names, 'bands': B3, 'apertures': ap, 'tables': t, 'logd_step': 0.25})
         base = t[min(2, nm_ - 1)][:, 1] * 10 ** (1.2 * k) * 0.5
     law = fc.law_object(cfg.get('law', 'power'))
     kw = dict(extinction_law=law, av_range=[0.0, 6.0], distance_range=np.array([0.5, 4.0]) * u.kpc)
     theta = np.ones(3) * u.arcsec
-    ref_fitter = Fitter(list(B3), theta, md, **kw)
+    rr = bool(cfg.get('rr')) and mode == '3d'
+    if rr:
+        rec.cls('remove-resolved-after-a-default-call')
+    ref_fitter = Fitter(list(B3), theta, md, remove_resolved=rr, **kw)
+    kw_fit = dict(kw, remove_resolved=True) if rr else kw
     ckey = tuple(sorted((kk, str(v)) for kk, v in cfg.items()))
     for si, seq in enumerate(case['seqs']):
         # every third file repeats a source name (two lines may well carry the same name)
@@ -168,13 +174,16 @@ def _part_a(ctx, case, rec, d):
         out = os.path.join(d, 'out_%d.fitinfo' % si)
         sub = {'lines': seq}
         try:
+            if rr and si == 0:
+                # the same package is first fitted with the option at its default, in the same process
+                fit(data, list(B3), theta, md, os.path.join(d, 'out_default.fitinfo'), n_data_min=cfg['n_data_min'], output_format=sel, output_convolved=cfg['conv'], **kw)
             if si % 3 == 2:
                 # the data may also be handed over as an open file
                 with open(data, 'r') as fh_in:
-                    fit(fh_in, list(B3), theta, md, out, n_data_min=cfg['n_data_min'], output_format=sel, output_convolved=cfg['conv'], **kw)
+                    fit(fh_in, list(B3), theta, md, out, n_data_min=cfg['n_data_min'], output_format=sel, output_convolved=cfg['conv'], **kw_fit)
                 rec.cls('data-as-open-file')
             else:
-                fit(data, list(B3), theta, md, out, n_data_min=cfg['n_data_min'], output_format=sel, output_convolved=cfg['conv'], **kw)
+                fit(data, list(B3), theta, md, out, n_data_min=cfg['n_data_min'], output_format=sel, output_convolved=cfg['conv'], **kw_fit)
             fin = FitInfoFile(out, 'r')
             recs = list(fin)
             meta = fin.meta
